@@ -321,7 +321,7 @@ static void run_case(Case &c, const Inp &in, const std::vector<Config> &cfgs, ui
 }
 
 static void sub_heapfill() {
-    long N = vf::opt_int("inputs", vf::tier(72, 720)); int nmax = (int)vf::opt_int("nmax", vf::tier(600, 1500)); int per = (int)vf::opt_int("cells", vf::tier(12, 18));
+    long N = vf::opt_int("inputs", vf::tier(240, 2000)); int nmax = (int)vf::opt_int("nmax", vf::tier(600, 1500)); int per = (int)vf::opt_int("cells", vf::tier(12, 18));
     for (long idx = 0; idx < N; ++idx) {
         if (!vf::selected("heapfill", idx)) continue;
         Rng r(vf::case_seed("heapfill", idx)); Inp in = regular_input(idx, r, nmax);
@@ -336,7 +336,7 @@ static void sub_heapfill() {
 
 // G6 x every coarsening / relaxation / solver cell x level settings x adapters
 static void sub_degenerate() {
-    long reps = vf::opt_int("rounds", vf::tier(1, 3)); int solver_stride = (int)vf::opt_int("solver_stride", vf::tier(3, 1)); long idx = 0;
+    long reps = vf::opt_int("rounds", vf::tier(1, 6)); int solver_stride = (int)vf::opt_int("solver_stride", 1); long idx = 0;
     for (long round = 0; round < reps; ++round) for (int which = 0; which < NDEGEN; ++which) for (int co = 0; co < 4; ++co) for (int rl = 0; rl < 9; ++rl, ++idx) {
         if (!vf::selected("degenerate", idx)) continue;
         Rng r(vf::case_seed("degenerate", round * NDEGEN + which)); Inp in = degenerate_input(which, r);     // same matrix for all cells of (round, which)
